@@ -95,3 +95,70 @@ def replay_genbase_v_numeric(obligation, model, meta):
                     'observed': 'static generator status after v_numeric %r, expected %r' % (status, want),
                     'native_cmd': 'GENBase.v_numeric(stub) with a recording StaticGen.set'}
     return {'confirmed': False, 'tried': 4}
+
+
+# F32: internal states that are known to wander in an undisturbed run (case, variable-name pattern)
+KNOWN_DRIFT = [('ieee39/ieee39_full.xlsx', r'F[12]_x1? IEEEST \d+'), ('wecc/wecc_full.xlsx', r'F[12]_x1? IEEEST \d+')]
+
+
+def bounded_flat_run(pack, pid, tier='quick'):
+    """bounded native stand-in: on stock dynamic cases with every disturbance disabled, TDS.init succeeds with residuals below tol,
+    the bus voltages are those of the power flow, and a short run stays at that point"""
+    from contracts.packutil import native_guard
+    name = '%s/andes/routines/tds.py:TDS.init;TDS.run/bounded:initialisation-is-an-equilibrium-of-the-power-flow-solution' % pid
+    cases = ['kundur/kundur_full.xlsx', 'ieee14/ieee14_full.xlsx'] + (['ieee39/ieee39_full.xlsx', 'wecc/wecc_full.xlsx'] if tier == 'thorough' else [])
+
+    seen_known = []
+
+    def go():
+        import contextlib
+        import io
+        import logging
+        import re
+        import numpy as np
+        import andes
+        logging.getLogger('andes').setLevel(logging.CRITICAL)
+        for case in cases:
+            with contextlib.redirect_stdout(io.StringIO()), contextlib.redirect_stderr(io.StringIO()):
+                ss = andes.load(andes.get_case(case), default_config=True, no_output=True)
+                for mdl in ('Toggle', 'Fault', 'Alter'):
+                    m = getattr(ss, mdl, None)
+                    if m is not None and m.n > 0:
+                        for i in list(m.idx.v):
+                            m.alter('u', i, 0)
+                if not ss.PFlow.run():
+                    return {'case': case, 'observed': 'power flow did not converge'}
+                v_pf, a_pf = ss.Bus.v.v.copy(), ss.Bus.a.v.copy()
+                ss.TDS.config.tf = 0.5
+                ss.TDS.init()
+            if ss.TDS.test_ok is not True:
+                bad = int(np.nanargmax(np.abs(ss.dae.fg))) if np.any(np.isfinite(ss.dae.fg)) else -1
+                return {'case': case, 'observed': 'initialisation test failed; largest residual %r at #%d' % (float(np.nanmax(np.abs(ss.dae.fg))), bad)}
+            if np.max(np.abs(ss.Bus.v.v - v_pf)) > 1e-8 or np.max(np.abs(ss.Bus.a.v - a_pf)) > 1e-8:
+                return {'case': case, 'observed': 'bus voltages after TDS.init differ from the power-flow solution'}
+            x0, y0 = ss.dae.x.copy(), ss.dae.y.copy()
+            with contextlib.redirect_stdout(io.StringIO()), contextlib.redirect_stderr(io.StringIO()):
+                ok = ss.TDS.run()
+            names = list(ss.dae.x_name) + list(ss.dae.y_name)
+            d = np.concatenate((np.abs(ss.dae.x - x0), np.abs(ss.dae.y - y0)))
+            moved = [names[k] for k in np.where(d > 1e-5)[0]]
+            listed = [nm for nm in moved if any(re.fullmatch(pat, nm) for c_, pat in KNOWN_DRIFT if c_ == case)]
+            if listed:
+                seen_known.append((case, listed))
+            other = [nm for nm in moved if nm not in listed]
+            if not ok or other:
+                k = names.index(other[0]) if other else -1
+                return {'case': case, 'observed': 'undisturbed run: success=%r; %d variable(s) moved, e.g. %r by %.3e' % (
+                    ok, len(other), other[0] if other else None, float(d[k]) if other else 0.0)}
+        return None
+    bad = native_guard(pack, name, go)
+    if seen_known:
+        kname = name + ':F32'
+        for k in pack.known_for(kname):
+            pack.known_finding(k)
+        if not pack.known_for(kname):
+            bad = bad or {'case': seen_known[0][0], 'observed': 'states moved in an undisturbed run: %r' % seen_known[0][1][:4]}
+    pack.bounded.append({'function': 'TDS.init / TDS.run (end to end, no disturbance)', 'kind': 'bounded native (stock cases: %s)' % ', '.join(cases),
+                         'counted_as_proved': False})
+    if bad:
+        pack.violation(name, {'bounded': True, 'inputs': bad, 'native_cmd': 'load; disable Toggle/Fault/Alter; PFlow.run; TDS.init; TDS.run(tf=0.5)'})
